@@ -21,6 +21,9 @@ def plan_cli(steps, R, P, faulty):
                     bad = R.choice([{'bad': 'missing'}, {'bad': 'dir'}, {'bad': 'garbage'}, {'bad': 'unknown'},
                                     {'bad': 'eacces'}, {'bad': 'eio', 'after': R.randint(0, 200)}, {'bad': 'empty'}])
                     files.insert(R.randint(0, len(files)), bad)
+            if R.random() < 0.35:
+                # the running order as merged so far, written out (completed once the roDelete has arrived)
+                files.insert(R.randint(0, len(files)), {'state': True})
             src = R.choice(['files', 'files', 'files', 's3-prefix', 's3-key'])
             steps.append({'k': 'cli', 'cmd': cmd, 'files': files, 'src': src, 'page_size': R.randint(1, 5),
                           'suffix': R.choice([None, None, '.mos.xml', '.xml'])})
@@ -76,6 +79,18 @@ def _materialise_files(run, step, tag):
                 continue
             e = run.store[f['i']]
             out.append({'path': e['path'], 'key': e['key'], 'ent': e, 'bad': None, 'data': e['data']})
+            continue
+        if f.get('state'):
+            if run.P is None:
+                continue
+            try:
+                data = str(run.P).encode('utf-8')
+            except Exception:    # noqa - C14 judges a running order that cannot be written out
+                continue
+            key = 'cli%s-%d-state.mos.xml' % (tag, n)
+            out.append({'path': run.fs.write(key, data), 'key': key, 'ent': None, 'bad': None, 'data': data})
+            if run.completed:
+                run.probes['cli-completed-state-file'] += 1
             continue
         bad = f['bad']
         key = 'cli%s-%d-%s.mos.xml' % (tag, n, bad)
